@@ -614,13 +614,28 @@ size_t qlisttbl_remove(qlisttbl_t *tbl, const char *name)
     if (name == NULL) return false;
 
     size_t numremoved = 0;
+    bool own = false;
 
     qlisttbl_obj_t obj;
     memset((void*)&obj, 0, sizeof(obj)); // must be cleared before call
     qlisttbl_lock(tbl);
     while (qlisttbl_getnext(tbl, &obj, name, false) == true) {
+        if (obj.name == name) {
+            // the caller searches with the name stored in this very element
+            // (a pointer handed out by getnext()). it must stay valid until
+            // the search is over, so this element goes last.
+            own = true;
+            continue;
+        }
         qlisttbl_removeobj(tbl, &obj);
         numremoved++;
+    }
+    if (own == true) {
+        memset((void*)&obj, 0, sizeof(obj));
+        if (qlisttbl_getnext(tbl, &obj, name, false) == true) {
+            qlisttbl_removeobj(tbl, &obj);
+            numremoved++;
+        }
     }
     qlisttbl_unlock(tbl);
 
